@@ -77,6 +77,9 @@ func TestWorker(t *testing.T) {
 			if overlayHooks != nil {
 				overlayHooks()
 			}
+			if simsyncHooks != nil {
+				simsyncHooks()
+			}
 		},
 		Run:   run,
 		After: after,
@@ -622,3 +625,7 @@ func confString(d *runData) string {
 // overlayHooks is set by autoyield_test.go when the check is built with the
 // statement-level yield overlay.
 var overlayHooks func()
+
+// simsyncHooks is set by simsync_test.go when the check is built with
+// simulated mutexes.
+var simsyncHooks func()
